@@ -69,6 +69,8 @@ type ChainCfg struct {
 	Conserve   bool // C02 sums
 	EveryStep  bool
 	DiffEveryN int
+	RealMiner  bool // honest mining goes through the node's own Miner.mining (packBlock under the size budget)
+	BigTx      bool // some transfers carry a description of several hundred KB; blocks are limited to 1 MB
 	Crash      bool // C06: journal node 0 and enumerate crash images at the end
 	NoStepOrcl bool // skip per-step oracles (C06 scenarios only check at crash images)
 }
@@ -107,6 +109,9 @@ func (r *chainRun) viol(clause, format string, a ...interface{}) *Violation {
 // setupChainRun boots the world of a chainsim plan (nodes at genesis, model, universe).
 func setupChainRun(plan *ChainPlan, cfg *ChainCfg, rc *RunCtx) (*chainRun, *Violation) {
 	g := &Genesis{Predist: map[int]string{0: "1000000000", 1: "500000000", 2: "70000"}, SlideWindow: plan.Window, NoFee: plan.NoFee, Award: "1000000"}
+	if cfg.BigTx {
+		g.MaxBlockMB = 1
+	}
 	k := &Knobs{UtxoCache: plan.UtxoCache}
 	w := NewWorld(g, k)
 	rc.OnCleanup(w.Close)
@@ -277,7 +282,12 @@ func (r *chainRun) doStep(st *CStep) *Violation {
 		} else {
 			r.noteApplied(n, v)
 		}
+		if !st.Defer {
+			r.rc.RunBG() // the walk's own background work (re-admission of rolled-back transactions) belongs to it
+		}
 	}
+	// background work still pending now may legitimately change the state during the step
+	bgPendingAtPre := len(r.rc.BG) > 0
 	if r.cfg.NoTrace {
 		pre = n.ObsAll(r.u, StateObsOpts{Pool: true})
 	}
@@ -350,7 +360,14 @@ func (r *chainRun) doStep(st *CStep) *Violation {
 		if st.A%4 == 0 {
 			max = st.B % 3
 		}
-		blk, err := n.Mine(MineOpts{MaxTx: max})
+		var blk *lpb.InternalBlock
+		var err error
+		if r.cfg.RealMiner && max < 0 {
+			blk, err = n.MineReal()
+			r.rc.St.Probes["mined-by-real-miner"]++
+		} else {
+			blk, err = n.Mine(MineOpts{MaxTx: max})
+		}
 		if err != nil {
 			r.logf("mine failed: %v", err)
 			failed = true
@@ -472,7 +489,7 @@ func (r *chainRun) doStep(st *CStep) *Violation {
 	} else if len(r.rc.BG) > 0 {
 		r.rc.St.Probes["bg-deferred"]++
 	}
-	if failed && r.cfg.NoTrace && pre != nil && len(r.rc.BG) == 0 && failKind != "walk" {
+	if failed && r.cfg.NoTrace && pre != nil && len(r.rc.BG) == 0 && !bgPendingAtPre && failKind != "walk" {
 		post := n.ObsAll(r.u, StateObsOpts{Pool: true})
 		inPre := func(k string) bool { _, ok := pre.KV[k]; return ok } // the universe of questions may have grown
 		filter := inPre
@@ -681,6 +698,15 @@ func (r *chainRun) buildTx(n *Node, st *CStep) *lpb.Transaction {
 		out.Frozen = -1
 	}
 	sp.Outs = append(sp.Outs, out)
+	if r.cfg.BigTx && abs(st.D)%3 != 0 {
+		// a description of 250..400 KB: three of these do not fit the 0.8 MB transaction budget of a block
+		desc := make([]byte, 250000+(abs(st.D)%4)*50000)
+		for i := range desc {
+			desc[i] = byte('a' + (i+abs(st.D))%23)
+		}
+		sp.Desc = desc
+		r.rc.St.Probes["big-tx-built"]++
+	}
 	rest := new(big.Int).Sub(tot, amt)
 	if !r.plan.NoFee && rest.Cmp(big.NewInt(10)) > 0 && abs(st.Amt)%3 == 1 {
 		sp.Outs = append(sp.Outs, OutSpec{To: "$", Amount: big.NewInt(int64(1 + abs(st.Amt)%9))})
